@@ -51,6 +51,14 @@ def user_shape(kinds):
     return Shape("E", names, list(kinds), decl)
 
 
+def valued_shape(values):
+    """a C-style enum with explicit member values (enum E { V0 = 1, V1 = 5, V2 }): variants are told apart by VALUE, which is
+    neither the member's position nor unique to one position"""
+    names = ["V%d" % i for i in range(len(values))]
+    decl = "enum E { %s };\n" % ", ".join(n if v is None else "%s = %d" % (n, v) for n, v in zip(names, values))
+    return Shape("E", names, ["none"] * len(values), decl)
+
+
 def option_shape(t):
     return Shape("Option<%s>" % t, ["Some", "None"], [t, "none"], "")
 
@@ -161,7 +169,9 @@ def gen_match_cases(seed, n, quick):
         for v in range(3):
             cases.append((sh, v, pays[v], arms, "local", (1, 7)))
     # every mode x every payload kind x boundary payloads, arms = exhaustive in order
-    shapes = [user_shape(["none", "int", "string", "long"]), user_shape(["none"]), user_shape(["none", "none", "none"]), option_shape("int"), option_shape("long"), option_shape("string"),
+    shapes = [user_shape(["none", "int", "string", "long"]), user_shape(["none"]), user_shape(["none", "none", "none"]),
+              valued_shape([1, 5, 10]), valued_shape([1, None, None]), valued_shape([2, 0, 1]), valued_shape([3, None, 1, None]),
+              option_shape("int"), option_shape("long"), option_shape("string"),
               result_shape("int", "string"), result_shape("string", "int"), result_shape("long", "int")]
     for sh in shapes:
         for mode in MODES:
@@ -177,7 +187,7 @@ def gen_match_cases(seed, n, quick):
     for _ in range(n):
         nv = r.range(1, 5)
         kinds = [r.choice(["none", "int", "long", "string"]) for _ in range(nv)]
-        sh = user_shape(kinds) if r.chance(70) else r.choice(shapes[3:])
+        sh = user_shape(kinds) if r.chance(70) else r.choice(shapes[3:7] if r.chance(30) else shapes[7:])
         nv = len(sh.kinds)
         v = r.below(nv)
         p = pick_payload(r, sh.kinds[v])
